@@ -520,7 +520,8 @@ fn convert_intensity(p: &mut Point) {
 
 struct Range {
     min: f64,
-    half_range: f64,
+    scale: f64,
+    scaled_range: f64,
 }
 
 impl Range {
@@ -568,12 +569,18 @@ impl Range {
     }
 
     fn from_min_max(min: f64, max: f64) -> Result<Self> {
-        // All calculations use halved values to avoid an overflow for very large ranges
-        let half_range = max * 0.5 - min * 0.5;
-        if half_range < 0.0 {
+        // Very large ranges are calculated with halved values to avoid an overflow.
+        // All other ranges must not be halved, that is not exact for the smallest numbers.
+        let scale = if (max - min).is_finite() { 1.0 } else { 0.5 };
+        let scaled_range = max * scale - min * scale;
+        if scaled_range < 0.0 {
             Error::invalid(format!("Found invalid range: min={min}, max={max}"))?;
         }
-        Ok(Self { min, half_range })
+        Ok(Self {
+            min,
+            scale,
+            scaled_range,
+        })
     }
 
     fn intensity_from_pointcloud(pc: &PointCloud) -> Result<Option<Self>> {
@@ -670,10 +677,10 @@ impl Range {
     #[inline]
     fn normalize(&self, value: f64) -> f32 {
         // Empty or undefined ranges cannot be normalized, all values are mapped to zero
-        if self.half_range.is_nan() || self.half_range <= 0.0 {
+        if self.scaled_range.is_nan() || self.scaled_range <= 0.0 {
             return 0.0;
         }
-        let normalized = (value * 0.5 - self.min * 0.5) / self.half_range;
+        let normalized = (value * self.scale - self.min * self.scale) / self.scaled_range;
         if normalized.is_nan() {
             0.0
         } else {
